@@ -329,7 +329,12 @@ func c07New(def bool) *c07Sys {
 
 // snapshot: an independent copy of the state (used by the sequential oracle only, never concurrently)
 func (s *c07Sys) snapshot() *c07Sys {
-	repo := &repository{dr: s.repo.dr, knownRules: slices.Clone(s.repo.knownRules), index: s.repo.index.Clone()}
+	// the fields are reached through accessors generated from the current source (bound by type, not by name:
+	// harness/tools/instr -access), so that renamed / regrouped fields do not break the driver
+	repo := &repository{}
+	c07SetDefault(repo, c07GetDefault(s.repo))
+	c07SetKnown(repo, slices.Clone(c07GetKnown(s.repo)))
+	c07SetIndex(repo, c07GetIndex(s.repo).Clone())
 
 	return &c07Sys{repo: repo, proc: NewRuleSetProcessor(repo, s.fac), fac: s.fac}
 }
@@ -1048,7 +1053,7 @@ func TestVerifC07Clone(t *testing.T) {
 
 		before := probe(sys)
 		clone := sys.snapshot()
-		shared := c07Shared(sys.repo.index, clone.repo.index)
+		shared := c07Shared(c07GetIndex(sys.repo), c07GetIndex(clone.repo))
 		// behavioural: whatever is done to the clone, the source answers as before
 		var after []c07Op
 
@@ -1066,24 +1071,32 @@ func TestVerifC07Clone(t *testing.T) {
 		}
 
 		for _, op := range after {
-			// directly on the clone's tree, without another copy-on-write in between
+			// directly on the clone's tree (the radix tree's own API), without another copy-on-write in between
+			tree := c07GetIndex(clone.repo)
+
 			for _, rl := range op.Rules {
 				set := c07RuleSet(op.Src, []c07Rule{rl})
 				if rul, err := clone.fac.CreateRule("", set.Source, set.Rules[0]); err == nil {
-					_ = clone.repo.addRulesTo(clone.repo.index, []rule.Rule{rul})
+					for _, route := range rul.Routes() {
+						if tree.Add(route.Path(), route, radixtree.WithBacktracking[rule.Route](rul.AllowsBacktracking())) != nil {
+							break
+						}
+					}
 				}
 			}
 
 			if op.Kind == "delete" {
-				var mine []rule.Rule
+				for _, kr := range c07GetKnown(clone.repo) {
+					if kr.SrcID() != fmt.Sprintf("%d", op.Src) {
+						continue
+					}
 
-				for _, kr := range clone.repo.knownRules {
-					if kr.SrcID() == fmt.Sprintf("%d", op.Src) {
-						mine = append(mine, kr)
+					for _, route := range kr.Routes() {
+						_ = tree.Delete(route.Path(), radixtree.ValueMatcherFunc[rule.Route](func(existing rule.Route) bool {
+							return existing == route
+						}))
 					}
 				}
-
-				_ = clone.repo.removeRulesFrom(clone.repo.index, mine)
 			}
 		}
 
